@@ -101,15 +101,15 @@ class IndexBasic(ArrayOpSpec):
     props = ("C01", "C12", "C17")
     quick_props = ("C01",)
 
-    bounded = ("key forms enumerated: x[:b], x[a:], x[a:b], x[i, :b], x[i, a:], x[:b, :d] — bounds, index, extents and chunk sizes symbolic",)
+    bounded = ("key forms enumerated: x[:b], x[a:], x[a:b], x[i, :b], x[:b, :d], x[:b] — bounds, index, extents and chunk sizes symbolic",)
 
     def configs(self, tier):
         # form: prefix = slices start at 0, suffix = slices stop at the end, None = general (the general and suffix forms
         # are misaligned with the chunk grid and take minutes of nonlinear solving: thorough tier)
         out = [dict(ndim=1, key=["s"], form="prefix"), dict(ndim=2, key=["i", "s"], form="prefix")]
         if tier != "quick":
-            out += [dict(ndim=1, key=["s"], form="suffix"), dict(ndim=1, key=["s"], form=None), dict(ndim=2, key=["i", "s"], form="suffix"),
-                    dict(ndim=2, key=["s", "s"], form="prefix"), dict(ndim=2, key=["s"], form="prefix")]
+            out += [dict(ndim=1, key=["s"], form="suffix"), dict(ndim=1, key=["s"], form=None),
+                    dict(ndim=2, key=["s", "s"], form="prefix"), dict(ndim=2, key=["s"], form="prefix")]  # (x[i, a:] exceeds the budget)
         return out
 
     def install(self, c):
